@@ -8,7 +8,7 @@ def run(tier, pid="C04", mode="rt"):
     c.mc("Json", "MC_Json", "MC_Json.cfg" if tier == "quick" else "MC_Json_t.cfg", workers=12, timeout=2400)
     nsh = 12 if tier == "quick" else 16
     traces = []
-    for k, sd in enumerate(vlib.seeds(tier, 4)):
+    for k, sd in enumerate(vlib.seeds(tier, 8)):
         traces += c.drive(exe, [[mode, "@OUT", tier, sd, i, nsh] for i in range(nsh)], tag="%s%d" % (mode, k))
     bads = c.validate("Json", "Trace_Json", traces, timeout=3400, xmx="6g")
     c.judge(bads)
